@@ -81,7 +81,13 @@ def gen_import_graph(root, rng):
             return ("plugins", target.lstrip(".") if not target.startswith(".") else absolute)
         if kind == "star":
             return ("stmt", f"from {target} import *\n")
-        return ("stmt", f"from {target} import {t['fix']}\n")
+        name = t["fix"]
+        via = [t2 for k2, t2 in t["imports"] if k2 == "star" and t2 is not t]
+        if via and rng.random() < 0.4:
+            # a name the target module itself only re-exports (from its own star import)
+            name = rng.choice(via)["fix"]
+            ws.features.add(("explicit_import_of_reexported_name",))
+        return ("stmt", f"from {target} import {name}\n")
     k = 0
     for m in mods:
         k += 1
